@@ -145,6 +145,17 @@ pub fn fail(class: &str, msg: String) -> ! {
     finish(obj! {"outcome" => "violation", "class" => class, "msg" => msg})
 }
 
+/// Several oracles of one run failed (they belong to different properties): the first is the run's
+/// class, the others travel along so that each property's check sees its own.
+pub fn fail_multi(mut all: Vec<(String, String)>) -> ! {
+    if all.is_empty() {
+        harness_error("fail_multi without a failure".into());
+    }
+    let (class, msg) = all.remove(0);
+    let also: Vec<J> = all.into_iter().map(|(c, m)| obj! {"class" => c, "msg" => m}).collect();
+    finish(obj! {"outcome" => "violation", "class" => class, "msg" => msg, "also" => J::Arr(also)})
+}
+
 /// Report a harness-side problem (never a VIOLATION).
 pub fn harness_error(msg: String) -> ! {
     finish(obj! {"outcome" => "harness-error", "class" => "harness", "msg" => msg})
